@@ -320,6 +320,11 @@ def iterations(ctx, prog, k, viol, from_head=False):
             br = fr.locals[counter].value
             conds += [buf.c == pos, buf.avail == avail, br.bv == nread, z3.BoolVal(last in ('frame', 'read'))]
             label = 'continue'
+        elif isinstance(rv, Panic) and rv.kind == 'bound':
+            # a loop other than the read loop itself (e.g. a helper handing on every buffered frame) ran past the unrolling bound:
+            # more frames per pass than this run covers - outside the stated bound, what was handed on so far is still checked
+            ctx.extra['paths_beyond_the_unrolling_bound_of_a_helper_loop'] = ctx.extra.get('paths_beyond_the_unrolling_bound_of_a_helper_loop', 0) + 1
+            label = 'beyond-bound'
         elif isinstance(rv, Panic):
             conds = [z3.BoolVal(False)]
             label = 'panic'
